@@ -20,6 +20,8 @@ def valid_compose(rng, R=None):
     respin = rng.randint(0, 20)
     c = {"id": "Fedora-%s-%s%s.%d" % (rng.choice(["22", "Rawhide", "9.1", "20240101", "123456789.2"]), date, sfx, respin), "type": ct, "date": date,
          "respin": respin, "label": None, "final": False}
+    if rng.random() < 0.12:
+        c["respin"] = 0                       # the stored respin is a fact of its own: 0 is a value, not "missing"
     if rng.random() < 0.4:
         c["label"] = "%s-%d.%d" % (rng.choice(R["LABEL_NAMES"]), rng.randint(0, 9), rng.randint(0, 9))
         c["final"] = rng.random() < 0.5
